@@ -22,6 +22,14 @@ type SolverStats struct {
 	Seconds     float64
 	ByKind      map[string]int
 	MaxQuerySec float64
+	// cross-solver re-decision of whole path transcripts (every query of a sampled path)
+	CrossPaths     int
+	CrossQueries   int
+	CrossAgree     int
+	CrossUnknown   int
+	CrossDisagree  int
+	CrossSeconds   float64
+	CrossDisagreed []string
 }
 
 func (s *SolverStats) add(o *SolverStats) {
@@ -31,6 +39,15 @@ func (s *SolverStats) add(o *SolverStats) {
 	s.Unknown += o.Unknown
 	s.Errors += o.Errors
 	s.Seconds += o.Seconds
+	s.CrossPaths += o.CrossPaths
+	s.CrossQueries += o.CrossQueries
+	s.CrossAgree += o.CrossAgree
+	s.CrossUnknown += o.CrossUnknown
+	s.CrossDisagree += o.CrossDisagree
+	s.CrossSeconds += o.CrossSeconds
+	if len(s.CrossDisagreed) < 5 {
+		s.CrossDisagreed = append(s.CrossDisagreed, o.CrossDisagreed...)
+	}
 	if o.MaxQuerySec > s.MaxQuerySec {
 		s.MaxQuerySec = o.MaxQuerySec
 	}
@@ -60,6 +77,14 @@ type Solver struct {
 	fallback    []string
 	fbStats     struct{ Calls, Sat, Unsat, Unknown int }
 	pathsServed int
+	// cross-solver checking: the transcript of every crossEvery-th path (all commands sent between
+	// its push and pop, minus get-value) is replayed through the other solvers and the sequence of
+	// sat/unsat answers compared with what the working solver said
+	crossEvery int
+	cross      [][]string
+	recording  bool
+	tx         strings.Builder
+	txAns      []string
 }
 
 func newSolver(argv []string, timeoutMs int) *Solver {
@@ -104,13 +129,14 @@ func (s *Solver) send(txt string) {
 	if s.dump != nil {
 		io.WriteString(s.dump, txt)
 	}
+	if s.recording && !strings.HasPrefix(txt, "(get-value") && !strings.HasPrefix(txt, "(set-option") {
+		s.tx.WriteString(txt)
+	}
 	io.WriteString(s.in, txt)
 }
 
 func (s *Solver) beginPath() {
-	if s.inPath {
-		s.endPath()
-	}
+	s.endPath()
 	// z3 keeps memory for definitions made inside popped scopes and slows down over thousands of
 	// paths: a fresh process every so often keeps per-query time flat (start-up is ~100 ms).
 	s.pathsServed++
@@ -123,6 +149,9 @@ func (s *Solver) beginPath() {
 	s.declOrder = nil
 	s.declW = map[string]int{}
 	s.pathLog.Reset()
+	s.tx.Reset()
+	s.txAns = s.txAns[:0]
+	s.recording = s.crossEvery > 0 && len(s.cross) > 0 && s.pathsServed%s.crossEvery == 1%s.crossEvery
 }
 
 func (s *Solver) ensureScope() {
@@ -136,6 +165,60 @@ func (s *Solver) endPath() {
 	if s.inPath {
 		s.send("(pop 1)\n")
 		s.inPath = false
+	}
+	if s.recording {
+		s.recording = false
+		if len(s.txAns) > 0 {
+			s.crossCheck()
+		}
+	}
+}
+
+// crossCheck replays the recorded transcript of the path just finished through every cross solver.
+func (s *Solver) crossCheck() {
+	t0 := time.Now()
+	defer func() { s.stats.CrossSeconds += time.Since(t0).Seconds() }()
+	s.stats.CrossPaths++
+	for _, argv := range s.cross {
+		script := s.tx.String()
+		if strings.Contains(argv[0], "cvc5") {
+			script = "(set-logic QF_BV)\n" + script
+		}
+		cmd := exec.Command(argv[0], argv[1:]...)
+		cmd.Stdin = strings.NewReader(script)
+		out, _ := cmd.Output()
+		var got []string
+		bad := false
+		for _, l := range strings.Split(string(out), "\n") {
+			l = strings.TrimSpace(l)
+			switch {
+			case l == "sat" || l == "unsat" || l == "unknown" || l == "timeout":
+				got = append(got, l)
+			case strings.HasPrefix(l, "(error"):
+				bad = true
+			}
+		}
+		if bad || len(got) != len(s.txAns) {
+			// the other solver rejected the script or died: inconclusive for every query of the path
+			s.stats.CrossQueries += len(s.txAns)
+			s.stats.CrossUnknown += len(s.txAns)
+			continue
+		}
+		for i, a := range s.txAns {
+			s.stats.CrossQueries++
+			b := got[i]
+			switch {
+			case (a != "sat" && a != "unsat") || (b != "sat" && b != "unsat"):
+				s.stats.CrossUnknown++
+			case a == b:
+				s.stats.CrossAgree++
+			default:
+				s.stats.CrossDisagree++
+				if len(s.stats.CrossDisagreed) < 5 {
+					s.stats.CrossDisagreed = append(s.stats.CrossDisagreed, fmt.Sprintf("query %d of a path: %s says %s, %s says %s", i, s.argv[0], a, argv[0], b))
+				}
+			}
+		}
 	}
 }
 
@@ -243,6 +326,9 @@ func (s *Solver) check(kind string, extra *Term, wantModel bool) (res string, mo
 		res = s.readLine()
 	}
 	dt := time.Since(t0).Seconds()
+	if s.recording {
+		s.txAns = append(s.txAns, res)
+	}
 	s.stats.Queries++
 	s.stats.ByKind[kind]++
 	s.stats.Seconds += dt
